@@ -366,6 +366,138 @@ theorem finalSymTab_good {N : Nat} {ss : List Stmt} (hlen : ss.length = N) :
       | _ => simp
     | _ => simp
 
+/-! ### evalSyms (batch 4): the EQUs defined by an expression are evaluated on the final addresses -/
+
+section
+variable {N : Nat} {ss : List Stmt} (hlen : ss.length = N) (haddr : ∀ s ∈ ss, s.pkg.address.Good 0)
+include hlen haddr
+
+/-- `addrIntOf_good` from what it really uses: every statement address is a 16-bit magnitude -/
+theorem addrIntOf_good' {j : Nat} (hj : j < N) : ∃ a, addrIntOf ss j = some a ∧ a ≤ 65535 := by
+  have hj' : j < ss.length := by omega
+  have hmem : ss[j] ∈ ss := List.getElem_mem hj'
+  obtain ⟨k, hk, hkle⟩ := (haddr _ hmem).int_le (Nat.zero_le _)
+  refine ⟨k, ?_, hkle⟩
+  show ((ss[j]?).map (·.pkg.address)).bind Value.int? = some k
+  rw [List.getElem?_eq_getElem hj']
+  exact hk
+
+theorem addrOperand_good' {v : Value} (hv : v.Good N) :
+    addrOperand ss v = .diag ∨ ∃ add, addrOperand ss v = .ok add := by
+  obtain ⟨k, hk, hk1, hk2⟩ := hv.int
+  unfold addrOperand
+  by_cases ha : v.isAddress = true
+  · rw [if_pos ha, hk]
+    obtain ⟨x, hx, hxle⟩ := addrIntOf_good' hlen haddr (hk1 ha)
+    dsimp only
+    rw [hx]
+    exact Or.inr ⟨x, rfl⟩
+  · rw [if_neg ha]
+    by_cases hn : v.isNumeric = true
+    · rw [if_pos hn, hk]
+      exact Or.inr ⟨_, rfl⟩
+    · rw [if_neg hn]; exact Or.inl rfl
+
+theorem addrOffset_good' {l r : Value} {op : Char} {m : Mode} {ae : Bool} (hl : l.Good N) (hr : r.Good N) :
+    addrOffset ss (.expr l r op m ae) ≠ .internal ∧
+      ∀ x, addrOffset ss (.expr l r op m ae) = .ok x → ∃ k, x.int? = some k ∧ k ≤ 65535 := by
+  rw [addrOffset_expr]
+  rcases addrOperand_good' hlen haddr hl with hd | ⟨a, ha⟩
+  · rw [hd]; exact ⟨by simp, fun x h => by cases h⟩
+  rw [ha]
+  rcases addrOperand_good' hlen haddr hr with hd | ⟨b, hb⟩
+  · rw [hd]; exact ⟨by simp, fun x h => by cases h⟩
+  rw [hb]
+  exact ⟨addrCombine_ne_internal _ _ _, fun x hx => addrCombine_int_le hx⟩
+
+/-- one entry of the symbol table through `evalSyms`: no internal error, and the entry stays good -/
+theorem evalSym_good {t : SymTab} (ht : SymTab.Good N t) {v : Value} (hv : v.Good N) :
+    evalSym ss t v ≠ .internal ∧ ∀ v', evalSym ss t v = .ok v' → v'.Good N := by
+  unfold evalSym
+  split
+  · cases hr : v.resolve t with
+    | error e => exact ⟨by simp, fun _ h => by cases h⟩
+    | ok r =>
+      dsimp only
+      have hrg := Value.resolve_good ht hv hr
+      by_cases hae : r.isAddrExpr = true
+      · rw [if_pos hae]
+        cases r with
+        | expr l r' op m ae =>
+          obtain ⟨hni, hok⟩ := addrOffset_good' hlen haddr (op := op) (m := m) (ae := ae) hrg.1 hrg.2.1
+          cases ho : addrOffset ss (.expr l r' op m ae) with
+          | ok x =>
+            dsimp only
+            refine ⟨by simp, fun v' h => ?_⟩
+            simp only [Outcome.ok.injEq] at h
+            subst h
+            split
+            · rename_i hnum
+              obtain ⟨k, hk, hkle⟩ := hok x ho
+              cases x with
+              | numeric i a b c => simp only [Value.int?, Option.some.injEq] at hk; subst hk; exact hkle
+              | _ => simp [Value.isNumeric] at hnum
+            · exact hv
+          | diag => exact ⟨by simp, fun _ h => by cases h⟩
+          | internal => exact absurd ho hni
+          | diverged => exact ⟨by simp, fun _ h => by cases h⟩
+        | _ => simp [Value.isAddrExpr] at hae
+      · rw [if_neg hae]
+        refine ⟨by simp, fun v' h => ?_⟩
+        simp only [Outcome.ok.injEq] at h
+        subst h
+        split
+        · exact hrg
+        · exact hv
+  · exact ⟨by simp, fun v' h => by cases h; exact hv⟩
+
+/-- `evalSyms` raises no internal error, and the table it gives is good -/
+theorem evalSyms_good {t : SymTab} (ht : SymTab.Good N t) : ∀ (x : SymTab), SymTab.Good N x →
+    evalSyms ss t x ≠ .internal ∧ ∀ r, evalSyms ss t x = .ok r → SymTab.Good N r := by
+  intro x
+  induction x with
+  | nil => intro _; exact ⟨by simp [evalSyms_nil], fun r h => by rw [evalSyms_nil] at h; cases h; intro kv hkv; cases hkv⟩
+  | cons kv rest ih =>
+    intro hx
+    obtain ⟨k, v⟩ := kv
+    obtain ⟨hni, hok⟩ := ih (fun y hy => hx y (by simp [hy]))
+    obtain ⟨hni1, hok1⟩ := evalSym_good hlen haddr ht (hx (k, v) (by simp))
+    rw [evalSyms_cons]
+    cases h1 : evalSym ss t v with
+    | ok v' =>
+      dsimp only
+      cases h2 : evalSyms ss t rest with
+      | ok r' =>
+        refine ⟨by simp, fun r h => ?_⟩
+        simp only [Outcome.ok.injEq] at h
+        subst h
+        intro y hy
+        rcases List.mem_cons.mp hy with rfl | hy
+        · exact hok1 v' h1
+        · exact hok r' h2 y hy
+      | diag => exact ⟨by simp, fun _ h => by cases h⟩
+      | internal => exact absurd h2 hni
+      | diverged => exact ⟨by simp, fun _ h => by cases h⟩
+    | diag => exact ⟨by simp, fun _ h => by cases h⟩
+    | internal => exact absurd h1 hni1
+    | diverged => exact ⟨by simp, fun _ h => by cases h⟩
+
+end
+
+/-- `fixAll` changes nothing but the `additional` field: the addresses stay 16-bit magnitudes -/
+theorem fixAll_addr_good {ss l l' : List Stmt} {i : Nat} (h : fixAll ss i l = .ok l')
+    (hl : ∀ s ∈ l, s.pkg.address.Good 0) : ∀ s ∈ l', s.pkg.address.Good 0 := by
+  obtain ⟨hlen, hp⟩ := fixAll_ok h
+  intro s' hs'
+  obtain ⟨j, hj, rfl⟩ := List.mem_iff_getElem.mp hs'
+  have hj' : j < l.length := by omega
+  obtain ⟨s'', h1, h2⟩ := hp j l[j] (List.getElem?_eq_getElem hj')
+  rw [List.getElem?_eq_getElem hj] at h1
+  cases h1
+  obtain ⟨v, hv⟩ := fixFit_same h2
+  rw [hv]
+  exact hl l[j] (List.getElem_mem hj')
+
 /-! ### the back end -/
 
 /-- **the back end raises no internal error** on statements that came out of the parser, however many there are
@@ -393,6 +525,8 @@ theorem back_ne_internal {ss0 : List Stmt} (hpar : ∀ s ∈ ss0, Parsed s) : ba
           obtain ⟨hlen3, hfix3, hall3⟩ := hok3 ss3 h3
           have hall3' : ∀ s ∈ ss3, StmtFix ss0.length s := fun s hs =>
             ⟨hall3 s hs, by simp only [allFixed, List.all_eq_true] at hfix3; exact hfix3 s hs⟩
+          split
+          · simp
           obtain ⟨hni4, hok4⟩ := assignAddrs_good ss3 0 hall3'
           cases h4 : assignAddrs ss3 0 with
           | ok ss4 =>
@@ -404,10 +538,18 @@ theorem back_ne_internal {ss0 : List Stmt} (hpar : ∀ s ∈ ss0, Parsed s) : ba
             | ok ss5 =>
               dsimp only
               have hlen5 : ss5.length = ss0.length := by rw [(fixAll_ok h5).1, hlen4']
-              have hni6 := finalSymTab_good hlen5 t ht
-              cases h6 : finalSymTab ss5 t with
+              have haddr5 := fixAll_addr_good h5 (fun s hs => (hall4 s hs).1.addr)
+              obtain ⟨hni6, hok6⟩ := evalSyms_good hlen5 haddr5 ht t ht
+              cases h6 : evalSyms ss5 t t with
+              | ok t1 =>
+                dsimp only
+                have hni7 := finalSymTab_good hlen5 t1 (hok6 t1 h6)
+                cases h7 : finalSymTab ss5 t1 with
+                | internal => exact absurd h7 hni7
+                | _ => simp
+              | diag => simp
               | internal => exact absurd h6 hni6
-              | _ => simp
+              | diverged => simp
             | diag => simp
             | internal => exact absurd h5 hni5
             | diverged => simp
